@@ -31,6 +31,13 @@ def _norm(t, total_order):
     if t[0] == "ite":
         c, a, b = _norm(t[1], total_order), _norm(t[2], total_order), _norm(t[3], total_order)
         return ("or", ("and", c, a), ("and", ("not", c), b))
+    if t[0] in ("list", "tuple") and len(t) == 2 and isinstance(t[1], tuple):
+        return ("const", len(t[1]) > 0)                      # a sequence display is true iff it has elements
+    if t[0] == "op" and t[1] == "filtered":
+        # [x for x in <static items> if c(x)] as a condition: non-empty iff some element passes its condition
+        alts = tuple(_norm(pr[1][0], total_order) for pr in t[2] if pr[0] == "tuple" and len(pr[1]) == 2)
+        if len(alts) == len(t[2]):
+            return ("or",) + alts if alts else ("const", False)
     if t[0] == "op":
         if t[1] == "not":
             return ("not", _norm(t[2][0], total_order))
